@@ -104,6 +104,7 @@ func runC08(r *fw.Run, p *fw.Program) {
 	c.ruleLazy()
 	c.ruleOrder()
 	c.ruleNumLen()
+	c.ruleStrNum()
 	c.ruleNullSem()
 	c.rulePure()
 	c.ruleToValue()
@@ -433,7 +434,7 @@ func jsonKindOfGo(t types.Type) string {
 }
 
 func (c *c08ctx) ruleKinds() {
-	ru := c.r.Rule("C08.kinds", "each arm of the scalar type switch wraps the value in the gojqx wrapper of its JSON type, carrying exactly the asserted value (int64 via big.NewInt, uint64 via SetUint64, string via []rune conversion, raw bits as lazy string with isRaw), bound to the same decode value; compound constructors wire dv/out/Compound and the array/object type", 15)
+	ru := c.r.Rule("C08.kinds", "each arm of the scalar type switch wraps the value in the gojqx wrapper of its JSON type, carrying exactly the asserted value (int64 via big.NewInt, uint64 via SetUint64, string via []rune conversion, raw bits as lazy string with isRaw, read from a clone so the decode value's own reader keeps its position), bound to the same decode value; compound constructors wire dv/out/Compound and the array/object type", 15)
 	f := c.mkOut
 	e := c.env(f)
 	dvParam := ""
@@ -566,6 +567,26 @@ func (c *c08ctx) ruleKinds() {
 					if !uses {
 						msgs = append(msgs, "lazy producer does not read the asserted bit reader")
 					}
+					// reading must not move the shared reader's position: the asserted reader itself is only
+					// ever cloned (or read positionally); everything sequential works on the clone
+					for _, call := range fw.CallsIn(cf) {
+						cc := call.Common()
+						if cc.IsInvoke() && ce.Term(cc.Value) == aTerm && !c08NonConsuming(cc.Method.Name()) {
+							msgs = append(msgs, "lazy producer invokes "+cc.Method.Name()+" on the decode value's own reader: its read position moves, so a later read of the same field sees other bytes")
+						}
+						for _, a := range cc.Args {
+							if ce.Term(a) != aTerm {
+								continue
+							}
+							if callee := cc.StaticCallee(); !c08IsCloneFn(callee) {
+								n := "a dynamic callee"
+								if callee != nil {
+									n = fw.ShortFn(callee)
+								}
+								msgs = append(msgs, "lazy producer hands the decode value's own reader to "+n+" instead of a clone: its read position moves, so a later read of the same field sees other bytes")
+							}
+						}
+					}
 				}
 			}
 			if raw == nil || !isConstBool(raw, true) {
@@ -694,6 +715,28 @@ func (c *c08ctx) ruleKinds() {
 	}
 }
 
+// c08NonConsuming: reader methods that leave the read position alone.
+func c08NonConsuming(method string) bool {
+	return strings.HasPrefix(method, "Clone") || method == "ReadBitsAt"
+}
+
+// c08IsCloneFn: a function of pkg/bitio whose only use of its argument is to invoke its Clone* method.
+func c08IsCloneFn(f *ssa.Function) bool {
+	if f == nil || f.Blocks == nil || pkgRel(f) != "pkg/bitio" {
+		return false
+	}
+	n := 0
+	for _, call := range fw.CallsIn(f) {
+		if cc := call.Common(); cc.IsInvoke() {
+			if !strings.HasPrefix(cc.Method.Name(), "Clone") {
+				return false
+			}
+			n++
+		}
+	}
+	return n > 0
+}
+
 // ---------------------------------------------------------------------------
 // C08.kindsel
 
@@ -741,6 +784,45 @@ func (c *c08ctx) ruleKindSel() {
 					c.kindOf[cc.Method.Name()] = v
 					found = true
 				}
+			}
+		}
+		if !found {
+			// the remaining branch of an if-chain: every other constant of the kind type is excluded
+			excluded := map[int64]bool{}
+			for _, cd := range fw.BlockConds(call.Block()) {
+				b, ok := cd.Val.(*ssa.BinOp)
+				if !ok || !((b.Op == token.EQL && !cd.True) || (b.Op == token.NEQ && cd.True)) {
+					continue
+				}
+				var k ssa.Value
+				if e.Term(b.X) == kt {
+					k = b.Y
+				} else if e.Term(b.Y) == kt {
+					k = b.X
+				}
+				if cst, ok := k.(*ssa.Const); ok && cst.Value != nil {
+					if v, ok := constant.Int64Val(cst.Value); ok {
+						excluded[v] = true
+					}
+				}
+			}
+			var remaining []int64
+			if nt, ok := kindParam.Type().(*types.Named); ok && nt.Obj().Pkg() != nil {
+				sc := nt.Obj().Pkg().Scope()
+				for _, n := range sc.Names() {
+					if cn, ok := sc.Lookup(n).(*types.Const); ok && types.Identical(cn.Type(), nt) {
+						if v, ok := constant.Int64Val(cn.Val()); ok && !excluded[v] {
+							remaining = append(remaining, v)
+						}
+					}
+				}
+			}
+			if len(remaining) == 1 {
+				if _, dup := c.kindOf[cc.Method.Name()]; dup {
+					ru.Fail(key, c.p.Rel(call.Pos()), "accessor invoked under two kinds")
+				}
+				c.kindOf[cc.Method.Name()] = remaining[0]
+				found = true
 			}
 		}
 		ru.Check(found, key, c.p.Rel(call.Pos()), fmt.Sprintf("under kind == %d", c.kindOf[cc.Method.Name()]), "accessor not guarded by a kind constant")
@@ -831,7 +913,7 @@ func strCompares(e *fw.TermEnv, fn *ssa.Function, derived func(term string) bool
 }
 
 func (c *c08ctx) ruleKeys() {
-	ru := c.r.Rule("C08.keys", "the extra-key list (ExtKeys), the keys has() accepts and the keys lookup serves are the same set; every one is underscore-prefixed and has() answers true for it", 19)
+	ru := c.r.Rule("C08.keys", "the extra-key list (ExtKeys), the keys has() accepts and the keys lookup serves are the same set; every one is underscore-prefixed and has() answers true for it, and for nothing else", 20)
 	fe, fh, fk := c.method(c.baseT, "ExtKeys"), c.method(c.baseT, "JQValueHas"), c.method(c.baseT, "JQValueKey")
 	if fe == nil || fh == nil || fk == nil {
 		ru.Undecided("anchor", "", "ExtKeys/JQValueHas/JQValueKey not all declared on "+tname(c.baseT))
@@ -922,6 +1004,19 @@ func (c *c08ctx) ruleKeys() {
 		}
 	}
 	ru.Check(okFalse, "has:false", c.pos(fh), "unknown names answer false", "has() never answers false")
+	// true only for one of the names
+	isName := map[ssa.Value]bool{}
+	for _, b := range has {
+		isName[b] = true
+	}
+	onlyNames := true
+	for _, rc := range fw.ReturnCases(fh, 0) {
+		if isConstBool(rc.Val, true) && fw.CaseReachable(fh, rc, func(cd fw.Cond) bool { return cd.True && isName[cd.Val] }) {
+			onlyNames = false
+		}
+	}
+	ru.Check(onlyNames, "has:true", c.pos(fh), "true only after the key compared equal to an extra-key name",
+		"has() of the extra keys answers true on a path where the key was not compared equal to any extra-key name (non-string or unknown keys exist only there)")
 }
 
 // ---------------------------------------------------------------------------
@@ -1098,6 +1193,10 @@ func (c *c08ctx) layerChecks(ru *fw.Rule) {
 		if recvT == base {
 			return "base", m, rt
 		}
+		// a helper method of the wrapper itself stands for a closure over the receiver
+		if rt == "recv" && !strings.HasPrefix(m, "JQValue") {
+			return "closure", m, rt
+		}
 		return "value", m, rt
 	}
 	for _, fn := range c.p.FqFunctions() {
@@ -1203,6 +1302,12 @@ func closureArg(fn, callee *ssa.Function, i int) *ssa.Function {
 				f := mc.Fn.(*ssa.Function)
 				if !strings.HasSuffix(f.Name(), "$bound") {
 					return f
+				}
+				// a method of the enclosing method's own receiver, passed as a method value (an extracted closure)
+				if obj, ok := f.Object().(*types.Func); ok && len(mc.Bindings) == 1 && fw.NewTermEnv(fn).Term(mc.Bindings[0]) == "recv" {
+					if m := fn.Prog.FuncValue(obj); m != nil && m.Blocks != nil && !strings.HasPrefix(m.Name(), "JQValue") {
+						return m
+					}
 				}
 			}
 		}
